@@ -121,6 +121,8 @@ func (c *verifC05ccRun) cwNotDispatched(kind string, tx *wire.MsgTx, o *verifCwO
 		how = "dispatched-as-remote-unilateral-close"
 	case o.coop != nil:
 		how = "dispatched-as-cooperative-close"
+	case o.panicked != "":
+		how = "watcher-panicked"
 	case o.dlpWait:
 		how = "treated-as-unknown-state-data-loss-wait"
 	case len(o.errLines()) > 0:
